@@ -406,7 +406,7 @@ unsigned MemoryPersister::find_nearest_highest_seqnum (const unsigned requested,
 {
 	if (last)
 	{
-		for (unsigned startseqnum(requested); startseqnum <= last; ++startseqnum)
+		for (unsigned startseqnum(requested ? requested : 1); startseqnum <= last; ++startseqnum) // 0 is the control record
 		{
 			Store::const_iterator itr(_store.find(startseqnum));
 			if (itr != _store.end())
